@@ -239,6 +239,37 @@ def reprojectGeoBoxes (src dst : Shape) (S D : Aff) (n : Rat) (ttol stol : Rat)
     | .error e => .error e
     | .ok A => reprojectLinear src dst fwd A n ttol stol padding align
 
+/-! ### `get_scale_at_point` (overlap.py:205-230) with `affine_from_pts` (math.py:471-496)
+
+The transform is sampled on the 5-point stencil `pt, pt ± (r,0), pt ± (0,r)` and an affine map is fitted by least
+squares (`np.linalg.lstsq`).  The stencil is symmetric about `pt`, so the columns of the centred design matrix are
+orthogonal and the least-squares solution has the closed form below (central differences for the linear part, the mean
+for the offset); `stencil_normal_equations` in Props proves that it satisfies the normal equations, i.e. that it IS the
+least-squares fit.  `r = 1` when the code is called with `r=None`. -/
+
+/-- the five sample points, in the order of the code -/
+def stencilPts (pt : Rat × Rat) (r : Rat) : List (Rat × Rat) :=
+  [(pt.1, pt.2), (pt.1 - r, pt.2), (pt.1, pt.2 - r), (pt.1 + r, pt.2), (pt.1, pt.2 + r)]
+
+/-- `affine_from_pts(XX, tr(XX))` on the stencil -/
+def stencilAffine (tr : Rat × Rat → Rat × Rat) (pt : Rat × Rat) (r : Rat) : Aff :=
+  let y0 := tr (pt.1, pt.2)
+  let yl := tr (pt.1 - r, pt.2)
+  let yd := tr (pt.1, pt.2 - r)
+  let yr := tr (pt.1 + r, pt.2)
+  let yu := tr (pt.1, pt.2 + r)
+  let a := (yr.1 - yl.1) / (2 * r)
+  let b := (yu.1 - yd.1) / (2 * r)
+  let d := (yr.2 - yl.2) / (2 * r)
+  let e := (yu.2 - yd.2) / (2 * r)
+  let mx := (y0.1 + yl.1 + yd.1 + yr.1 + yu.1) / 5
+  let my := (y0.2 + yl.2 + yd.2 + yr.2 + yu.2) / 5
+  ⟨a, b, mx - a * pt.1 - b * pt.2, d, e, my - d * pt.1 - e * pt.2⟩
+
+/-- `get_scale_at_point(pt, tr, r)`; `n` is the root of `a² + d²` of the fitted map (as for `scale2`) -/
+def scaleAtPoint (tr : Rat × Rat → Rat × Rat) (pt : Rat × Rat) (r n : Rat) : Rat × Rat :=
+  scale2 (stencilAffine tr pt r) n
+
 /-- Cross-CRS branch (lines 491-515): `back`/`fwd` stand for the pyproj-based
 `GbxPointTransform`, `scaleAt` for `get_scale_at_point(·, tr.back)`. -/
 def reprojectNonlinear (src dst : Shape) (back fwd : PtTr) (scaleAt : Rat × Rat → Rat × Rat)
